@@ -329,7 +329,11 @@ func c08ConcExec(s *c08Sess, in *c08ConcIn, sc *c08Sched, w *c08World) c08ConcRu
 		case in.Hold && !released && e.g < n && held[e.g] == "":
 			held[e.g] = e.kind // kept there until every goroutine has been started
 		default:
-			injectObserver(fmt.Sprintf("%s of goroutine %d", e.kind, e.g))
+			at := fmt.Sprintf("%s callback of goroutine %d", e.kind, e.g)
+			if e.g >= n {
+				at = "pool's metrics callback (end of an Add/Remove region)"
+			}
+			injectObserver(at)
 			sc.resume[e.g] <- struct{}{}
 		}
 	}
